@@ -30,12 +30,12 @@ SKIP = set(c14.SKIP) | {"eval", "print", "echo", "write", "assert", "throw'", "m
 POOL = [
     ("null", "null"), ("int0", "0"), ("int1", "1"), ("intneg", "(-1)"), ("int2", "2"), ("int7", "7"), ("big", "(2^64)"),
     ("rational", "(1/2)"), ("float", "1.5"), ("nan", "(0.0/0.0)"), ("complex", "(1+2i)"),
-    ("emptystr", '""'), ("str", '"ab"'), ("ustr", '"hé"'), ("emptylist", "[]"), ("list", "[3, 1, 2]"), ("nested", "[[1, 2], [3]]"),
+    ("emptystr", '""'), ("str", '"ab"'), ("ch", '"a"'), ("ch2", '"e"'), ("ustr", '"hé"'), ("emptylist", "[]"), ("list", "[3, 1, 2]"), ("nested", "[[1, 2], [3]]"),
     ("mixed", '[1, "a", null]'), ("dict", '{1: 2, "a": [3]}'), ("set", "{1, 2}"), ("vector", "V(1, 2)"), ("bytes", "B[104, 255]"),
     ("stream", "(1 to 3)"), ("builtin", "(+)"), ("closure", "(\\x -> [x])"), ("closure2", "(\\x, y -> [x, y])"), ("type", "int"),
 ]
-QUICK = ["null", "int0", "int2", "rational", "float", "str", "list", "dict", "stream", "closure", "closure2"]
-SUB3 = ["int0", "int2", "str", "list", "closure2", "null", "stream", "float"]
+QUICK = ["null", "int0", "int2", "rational", "float", "str", "ch", "ch2", "list", "dict", "stream", "closure", "closure2"]
+SUB3 = ["int0", "int2", "str", "ch", "list", "closure2", "null", "stream", "float"]
 SUB3_QUICK = ["int2", "str", "list", "closure2"]
 
 USER = [("c1", "\\a -> [a]"), ("c2", "\\a, b -> [a, b]"), ("c3", "\\a, b, c -> [a, b, c]"), ("cv", "\\...xs -> xs"),
